@@ -178,6 +178,20 @@ def judge(ctx, case):
         ctx.viol("BSM signature is not the reference signature over sha256d(magic-prefixed, length-prefixed message)", {"len": len(m)})
     if not ec.verify(Q, z, rr, ss):
         ctx.viol("BSM signature does not verify under the signer's key against the reference digest", {"len": len(m)})
+    if case["nonce"]:
+        # the very next request on this thread: the SAME key and explicit nonce, another message (and then the first message again):
+        # the result depends on the arguments alone, not on what was signed before
+        ctx.hit("same_key_and_nonce_next_message")
+        for m2 in (m + b"!", m):
+            s2 = ctx.call({"op": "bsm_sign", "key": case["x"], "compressed": comp, "msg": m2.hex(), "addr_hash": h160.hex(), "prefix": p, "k": case["nonce"]})
+            ctx.ev()
+            z2 = int.from_bytes(digest(m2), "big") % ec.N
+            e2 = ec.sign_with_k(x, z2, int(case["nonce"], 16))
+            if "ok" not in s2:
+                if e2 is not None:
+                    ctx.viol("BSM signing with an explicit nonce fails when the previous request used the same key and nonce for another message", {"resp": str(s2)[:200]})
+            elif e2 is not None and (int(s2["ok"]["r"], 16), int(s2["ok"]["s"], 16)) != (e2[0], e2[1]):
+                ctx.viol("BSM signature with an explicit nonce differs from the reference when the previous request used the same key and nonce", {"len": len(m2)})
     hdr = int(o["compact"][:2], 16)
     if hdr != 27 + (1 if e[2] else 0) + (2 if e[3] else 0) + (4 if comp else 0):
         ctx.viol("BSM compact header is not 27 + recid + 4*compressed", {"hdr": hdr})
